@@ -616,6 +616,31 @@ func genC15(rt *rapid.T, st *Stats) *ConcCase {
 			cc.GoMaxProcs = 4
 		}
 	}
+	if chance(rt, "long_jobs", 1, 8) {
+		// two or three jobs that keep an iterative phase busy for long: regular fishbones (every spine node has one leaf
+		// pointing into it, the leaf edge listed first) of 40..140 teeth cost SinkColoring about one align/shift round
+		// per tooth and a few milliseconds. Budgets, counters and scratch state that one call consumes and another
+		// call (wrongly) shares only show when the concurrent calls together need a lot of it: seeded/r6-m15 counts
+		// shift rounds of all calls in flight on one atomic counter behind a pointer in the default options - no data
+		// race, and small jobs never come near its limit of 100.
+		for k := rapid.IntRange(2, 3).Draw(rt, "long_count"); k > 0; k-- {
+			teeth := rapid.IntRange(40, 140).Draw(rt, "teeth")
+			var ies []iedge
+			for i := 0; i < teeth; i++ {
+				ies = append(ies, iedge{2*i + 1, 2 * i})
+				if i > 0 {
+					ies = append(ies, iedge{2 * (i - 1), 2 * i})
+				}
+			}
+			c := &Case{Edges: toEdges(ies, nid), Pos: PosSink, Rt: []int{RtPolyline, RtNoop}[pick(rt, "long_rt", 2)], Lay: pick(rt, "long_lay", 2),
+				SzMode: SzFixed, Fixed: Sz{40, 20}}
+			cc.Jobs = append(cc.Jobs, c)
+		}
+		cc.Copies = max(2, min(cc.Copies, 3))
+		if cc.GoMaxProcs < 4 {
+			cc.GoMaxProcs = 4
+		}
+	}
 	return cc
 }
 
